@@ -40,6 +40,7 @@ inductive Obs
   | trigger (n : Next)
   | rbres (id : TxId) (r : Res) (n : Next)
   | stop (hang : Bool)
+  | closeSub           -- the harness closed the block subscription's channel
 deriving Repr
 
 structure RbObs where
@@ -114,5 +115,6 @@ def ostep (s : OState) : Obs → OState × List Fail
       | _ => ({ s with rb := none }, finishRb s rb)
   | .stop hang =>
     ({ s with stopped := true }, if hang then [("stop-hang", "Stop never returned")] else [])
+  | .closeSub => (s, [])   -- changes nothing the property talks about: ticks go on, calls return
 
 end Neutrino.PushTx
